@@ -361,6 +361,15 @@ theorem stop_cancels_all (as : List Act) (s : S) (hr : run {} as = some s) (hemp
   have := ((run_inv as {} s inv_init hr).refine x).mp hx
   simpa [hempty] using this
 
+/-- **The client never forgets a consumer the broker still serves**: at every moment of every history a
+    consumer in the broker's table is listed by the client, unless the `consume()` that created it has not
+    recorded it yet (the invariant the harness monitors at every `remove_consumer_tag`). -/
+theorem never_forgotten_while_served (as : List Act) (s : S) (hr : run {} as = some s) (x : String) (hx : x ∈ s.broker) :
+    x ∈ s.tags ∨ adding s x := by
+  rcases ((run_inv as {} s inv_init hr).refine x).mp hx with ⟨h, _, _⟩ | h
+  · exact Or.inl h
+  · exact Or.inr h
+
 theorem stop_cancels_all_quiescent (as : List Act) (s : S) (hr : run {} as = some s) (hempty : s.tags = [])
     (hcur : s.cur = none) : s.broker = [] := by
   rcases hb : s.broker with _ | ⟨x, xs⟩
